@@ -1948,7 +1948,7 @@ Proof.
   - (* CYield *)
     destruct k as [| |c].
     + apply Qq, W_refl.
-    + destruct inc; [apply Qq, W_refl|]. cbn [fst blocked].
+    + destruct inc; [apply Qq, W_refl|]. destruct (ckif_spins _ _ _); [|apply Qq, W_refl]. cbn [fst blocked].
       apply (WFE_r [u] s (bare_yield s u)); [|apply WTE_WQE, WTE_set_running].
       apply WT_WF, WT_bare_yield.
     + pose proof (WQ_exit s c u inc) as H. destruct (scope_exit s c u inc) as [s1 x]. cbn [fst] in H.
